@@ -265,7 +265,18 @@ def run_history(ctx, i, pending):
                 if (array_fingerprint(pred), array_fingerprint(refa)) != fp0:
                     ctx.viol("caller_arrays_modified", {"via": "aggregator", "history": history[-6:]}, features={"input": cfg["input"], "via": "aggregator"})
             except Exception as e:  # noqa: BLE001
-                ctx.viol("aggregator_evaluate_raised", {"exc": repr(e)[:300], "history": history[-6:]}, features={"exc": type(e).__name__})
+                # an input the evaluation itself rejects (e.g. clDSC on 1-D arrays) is rejected through the aggregator
+                # as well: a freshly built evaluator must raise the same kind of error for it
+                try:
+                    with np.errstate(all="ignore"), pan.quiet():
+                        pan.evaluate(pan.make_evaluator(cfg), pred.copy(), refa.copy())
+                    same = False
+                except Exception as e2:  # noqa: BLE001
+                    same = type(e2) is type(e)
+                if same:
+                    ctx.count("C15.aggregator_rejected_an_input_the_evaluator_rejects")
+                else:
+                    ctx.viol("aggregator_evaluate_raised", {"exc": repr(e)[:300], "history": history[-6:]}, features={"exc": type(e).__name__})
             history.append({"op": "aggregator_evaluate", "cfg": atr.cfg_idx, "input": k})
         for t in trs:
             t.check(ctx, s, history)
